@@ -81,6 +81,14 @@ def _add_field_reference_to_dependencies(reference, dependencies, name):
     dependencies[name] |= {ir_util.hashable_form_of_reference(reference.path[0])}
 
 
+def _add_resolved_field_reference_to_dependencies(reference, dependencies, name):
+    """Like _add_field_reference_to_dependencies, once the whole path is resolved."""
+    # `f.o` depends on `f` and on the member `o` of f's type.
+    for component in reference.path:
+        if component.has_field("canonical_name"):
+            dependencies[name] |= {ir_util.hashable_form_of_reference(component)}
+
+
 def _add_name_to_dependencies(proto, dependencies):
     name = ir_util.hashable_form_of_reference(proto.name)
     dependencies.setdefault(name, set())
@@ -419,6 +427,11 @@ def _find_object_dependency_cycles(ir):
     dependencies, find_dependency_errors = _find_dependencies(ir)
     if find_dependency_errors:
         return find_dependency_errors
+    return _cycle_errors(dependencies, ir)
+
+
+def _cycle_errors(dependencies, ir):
+    """Returns a "Dependency cycle" error for each cycle in dependencies."""
     errors = []
     cycles = _find_cycles(dict(dependencies))
     for cycle in sorted(
@@ -482,6 +495,30 @@ def find_dependency_cycles(ir):
     """Finds any dependency cycles in the ir."""
     errors = _find_module_dependency_cycles(ir)
     return errors + _find_object_dependency_cycles(ir)
+
+
+def find_dependency_cycles_through_members(ir):
+    """Finds dependency cycles that go through the members of a field.
+
+    find_dependency_cycles runs before the later components of field references
+    are resolved, so it only sees the first one.  `let o = f.o`, where `f` has
+    the enclosing structure's own type, depends on itself through the second;
+    without this pass, type checking would follow `o -> f.o -> o` forever.
+    """
+    dependencies = {}
+    traverse_ir.fast_traverse_ir_top_down(
+        ir,
+        [ir_data.FieldReference],
+        _add_resolved_field_reference_to_dependencies,
+        skip_descendants_of={ir_data.Attribute},
+        incidental_actions={
+            ir_data.Field: _add_name_to_dependencies,
+            ir_data.EnumValue: _add_name_to_dependencies,
+            ir_data.RuntimeParameter: _add_name_to_dependencies,
+        },
+        parameters={"dependencies": dependencies},
+    )
+    return _cycle_errors(dependencies, ir)
 
 
 def set_dependency_order(ir):
